@@ -7,9 +7,9 @@ CONSTANTS
   Places = {"global"}
   Derive = TRUE
   Pair = FALSE
-  Threads = TRUE
+  Threads = FALSE
   Defects = {}
   EmitCases = FALSE
-INVARIANTS TypeOK InvNoDangling InvFaithful InvChildLive InvNoResidue InvNoInflight
+INVARIANTS TypeOK InvNoDangling InvFaithful InvChildLive InvNoResidue
 CHECK_DEADLOCK FALSE
 VIEW DesignView
